@@ -8,7 +8,7 @@ import common
 import corr_omen
 from corr_omen import enc
 
-LETTER_SETS = ['ab', 'abc', 'abcd1', 'aбя', 'xy1!', 'бя']
+LETTER_SETS = ['ab', 'abc', 'abcd1', 'aбя', 'xy1!', 'бя', 'a b', 'ab\u3000', ' ab']
 
 
 def gen_training(rng):
@@ -78,6 +78,12 @@ def candidates(rng, pws, alphabet, ngram, max_length=21):
             out.append(p[:k] + rng.choice(alphabet + 'Q') + p[k + 1:])
             out.append(p + rng.choice(alphabet))
             out.append(p[:-1])
+    # suffixes of training passwords: they start with an n-gram that (mostly) never starts a password - initial level 10 -
+    # while all their transitions were seen often
+    for p in pws[:12]:
+        for k in (1, 2, 3):
+            if len(p) - k >= ngram:
+                out.append(p[k:])
     for ln in (ngram - 1, ngram, ngram + 1, 21, 22, max_length - 1, max_length, max_length + 1):
         if ln > 0:
             out.append(''.join(rng.choice(alphabet) for _ in range(ln)))
